@@ -346,6 +346,20 @@ func (x *Exec) applyContract(s *State, in ssa.Instruction, f *ssa.Function, fc *
 	if f == x.fn {
 		x.checkDecreases(s, fc, env, site, f)
 	}
+	for _, h := range fc.Holds {
+		id, err := x.lockIDOfExpr(s, h.E, env, pkgOf(f))
+		if err != nil {
+			x.abort(fmt.Sprintf("holds of %s at %s: %v", callee, site, err))
+			return
+		}
+		held := s.locks[id]
+		ok := held == "W" || (h.Mode == "R" && held == "R")
+		goal := TTrue
+		if !ok {
+			goal = TFalse
+		}
+		x.emit(s, "lock", "holds:"+callee+"#"+h.Text+"@"+site, goal, fmt.Sprintf("callee needs %s held (%s); held: %q", h.Text, h.Mode, held))
+	}
 	pre := &SpecEnv{x: x, s: s, names: env, fnPkg: pkgOf(f)}
 	if recv := f.Signature.Recv(); recv != nil && len(args) > 0 && args[0].T != nil && fc.Opts["nilrecv"] == "" {
 		if _, isPtr := recv.Type().Underlying().(*types.Pointer); isPtr && args[0].T.Sort == SInt {
